@@ -1,12 +1,47 @@
 """C15 — cross references (DESIGN.md section 6, C13..C16; one model, one driver: drv_C13).
 P: AgVerif.Props.C15 over Model/Xref.lean (+ generated opcode tests Gen/XrefOps.lean).
-T: real androguard Analysis (programs assembled with harness/dexasm.py, shipped APKs) vs the Lean model.
+T: real androguard Analysis (programs assembled with harness/dexasm.py, shipped APKs, rename histories between
+   Analysis.add and create_xref) vs the Lean model.
 S: harness/xref_oracle.py — the property's comprehensions, computed from the program description."""
 from harness.fw import Check
 from harness import xref_common as X
 
+# hand-modelled functions of AgVerif.Xref (read by tools/mkpins.py; same list as xref_common.PINS)
+PINS = [("androguard/core/analysis/analysis.py", "Analysis.add"),
+        ("androguard/core/analysis/analysis.py", "Analysis.create_xref"),
+        ("androguard/core/analysis/analysis.py", "Analysis._create_xref"),
+        ("androguard/core/analysis/analysis.py", "Analysis._resolve_method"),
+        ("androguard/core/analysis/analysis.py", "Analysis._resolve_field"),
+        ("androguard/core/analysis/analysis.py", "Analysis.get_call_graph"),
+        ("androguard/core/analysis/analysis.py", "Analysis.get_field_analysis"),
+        ("androguard/core/analysis/analysis.py", "Analysis.get_fields"),
+        ("androguard/core/analysis/analysis.py", "Analysis.find_methods"),
+        ("androguard/core/analysis/analysis.py", "ClassAnalysis.add_method"),
+        ("androguard/core/analysis/analysis.py", "ClassAnalysis.add_field"),
+        ("androguard/core/analysis/analysis.py", "ClassAnalysis.add_field_xref_read"),
+        ("androguard/core/analysis/analysis.py", "ClassAnalysis.add_field_xref_write"),
+        ("androguard/core/analysis/analysis.py", "ClassAnalysis.add_method_xref_to"),
+        ("androguard/core/analysis/analysis.py", "ClassAnalysis.add_method_xref_from"),
+        ("androguard/core/analysis/analysis.py", "ClassAnalysis.add_xref_to"),
+        ("androguard/core/analysis/analysis.py", "ClassAnalysis.add_xref_from"),
+        ("androguard/core/analysis/analysis.py", "ClassAnalysis.add_xref_new_instance"),
+        ("androguard/core/analysis/analysis.py", "ClassAnalysis.add_xref_const_class"),
+        ("androguard/core/analysis/analysis.py", "ClassAnalysis.get_field_analysis"),
+        ("androguard/core/analysis/analysis.py", "MethodAnalysis.add_xref_to"),
+        ("androguard/core/analysis/analysis.py", "MethodAnalysis.add_xref_from"),
+        ("androguard/core/analysis/analysis.py", "MethodAnalysis.add_xref_read"),
+        ("androguard/core/analysis/analysis.py", "MethodAnalysis.add_xref_write"),
+        ("androguard/core/analysis/analysis.py", "MethodAnalysis.add_xref_new_instance"),
+        ("androguard/core/analysis/analysis.py", "MethodAnalysis.add_xref_const_class"),
+        ("androguard/core/analysis/analysis.py", "FieldAnalysis.add_xref_read"),
+        ("androguard/core/analysis/analysis.py", "FieldAnalysis.add_xref_write"),
+        ("androguard/core/analysis/analysis.py", "StringAnalysis.add_xref_from"),
+        ("androguard/core/analysis/analysis.py", "REF_TYPE"),
+        ("androguard/core/dex/__init__.py", "DEX.get_encoded_field_descriptor")]
+
 
 def run(ck: Check):
+    assert sorted(PINS) == sorted(X.PINS)
     X.run_property(ck, "C15")
 
 
